@@ -3,5 +3,6 @@
 NAME=$1; shift; PROPS=${@:-${NAME:0:3}}
 cd /repo && git diff --quiet || { echo "/repo not clean"; exit 2; }
 git apply /verif/seeded/$NAME/patch.diff || exit 2
-trap 'git -C /repo checkout -- .' EXIT
+mkdir -p /tmp/ev_save && cp -r /verif/evidence/. /tmp/ev_save/ 2>/dev/null
+trap 'git -C /repo checkout -- .; cp -r /tmp/ev_save/. /verif/evidence/ 2>/dev/null' EXIT
 for p in $PROPS; do (cd /verif && ./check $p --tier ${TIER:-quick} 2>&1 | grep -E "VIOLATION|failed obligation|CHECKER-ERROR|UNDECIDED|KNOWN|tier=|demoted" | cut -c1-300; echo "[$NAME on $p] exit=${PIPESTATUS[0]}"); done
